@@ -251,6 +251,7 @@ TransferTo(t, dest) ==
 \* TRUE: the code after the fix of finding F17 (a companion configuration
 \* overrides it with FALSE and re-derives the counterexample)
 FixF17 == TRUE
+FixF18 == TRUE
 \* [err] | [t |-> tree, done |-> BOOLEAN]
 Backtrack(op, t, pref) ==
     IF KindOf(Eng(t)) = "sql" THEN [t |-> t, done |-> FALSE]      \* base-class implementation
@@ -260,7 +261,11 @@ Backtrack(op, t, pref) ==
                 IF k.first.o = "none" THEN [t |-> t, done |-> k.done]
                 ELSE LET up == Backtrack(k.first, t.t, pref) IN
                      IF IsErr(up) THEN up
-                     ELSE LET res == IF up.t # t.t THEN FinishApplyX(k.second, up.t) ELSE t IN
+                     ELSE LET \* (fix of finding F18) the commuted version of the current operation also
+                              \* replaces it when the moved operation was absorbed upstream as a no-op
+                              \* (done, tree unchanged): the pinned-commit code kept the current operation
+                              replace == up.t # t.t \/ (FixF18 /\ up.done /\ k.second # t.op)
+                              res == IF replace THEN FinishApplyX(k.second, up.t) ELSE t IN
                           IF IsErr(res) THEN res ELSE [t |-> res, done |-> up.done /\ k.done]
            [] t.k = "bin" -> [t |-> t, done |-> FALSE]
            [] t.k = "xfer" ->
